@@ -299,6 +299,8 @@ class _TableFormSection(object):
     if u"interpolation" in section:
       interpolation = section[u"interpolation"]
     x,y = self._parse_data(section_name, section)
+    if len(x) == 0:
+      raise ConfigParserException("No data values found in section '{}'".format(section_name))
 
     table_tuple = TableFormTuple(
       name = name, 
@@ -416,6 +418,9 @@ class ConfigParser(object):
     except configparser.Error as e:
       # Text that is not an INI file: no section header, a line without delimiter...
       raise ConfigParserException("Could not read potential definition: {}".format(e))
+    except UnicodeDecodeError as e:
+      # ... or not text at all.
+      raise ConfigParserException("Could not read potential definition, it is not a text file: {}".format(e))
 
     # Process overrides
     for override in overrides:
